@@ -20,6 +20,7 @@ EXPLANATION = (
 )
 
 SER = "ipv8/messaging/serialization.py"
+FOREIGN_CALLS = {"decrypt_str", "encrypt_str"}
 
 
 # ------------------------------------------------------------------------------------------ region / bounds
@@ -80,6 +81,14 @@ def rule_bounds(ctx: Ctx) -> None:
                       f"read of `{norm(node)}` on the unprotected receive path (reached via {via[fi]}) needs "
                       f"len({norm(base)}) >= {need} but only >= {have} is established: a short datagram raises "
                       "IndexError/struct.error into the transport", used)
+        # 1b. calls into the binary extension (no documented exception contract) must be contained by a catch-all handler
+        for call in calls(fi):
+            if call_name(call) in FOREIGN_CALLS and not protected(call, fi):
+                ctx.check(False, "bounds-before-index", fi, call, f"foreign call {norm(call.func)} contained by try/except Exception",
+                          f"`{norm(call)[:60]}` (ipv8_rust_tunnels, raises RuntimeError on a tag mismatch and ValueError on short input) is reached on the "
+                          f"unprotected receive path (via {via[fi]}) without a catch-all handler: a forged cell raises into the transport")
+            elif call_name(call) in FOREIGN_CALLS:
+                ctx.instance("bounds-before-index", fi.where, f"foreign call {norm(call.func)} contained by a catch-all handler", line=call.lineno)
         # 2. calls out of unprotected statements
         if depth[fi] >= 6:
             continue
@@ -442,6 +451,9 @@ def run(ctx: Ctx) -> None:
 
 _CR = "ipv8/messaging/anonymization/crypto.py"
 WITNESSES = [
+    {"name": "pre-fix: AEAD RuntimeError reaches the transport", "file": _CR, "rule": "bounds-before-index",
+     "old": "                cell.message = hop.keys.decrypt_str(cell.message, direction)\n            except Exception as e:",
+     "new": "                cell.message = hop.keys.decrypt_str(cell.message, direction)\n            except ValueError as e:"},
     {"name": "pre-fix: Community.on_packet without length guard", "file": "ipv8/community.py", "rule": "bounds-before-index",
      "old": "if self._prefix != data[:22] or len(data) < 23:", "new": "if self._prefix != data[:22]:"},
     {"name": "off-by-one guard in Community.on_packet", "file": "ipv8/community.py", "rule": "bounds-before-index",
